@@ -645,13 +645,38 @@ func runStress(p StressParams, scratch string, idx int) *StressResult {
 	// ---------------------------------------------------------------- wait
 	waitCh := make(chan struct{})
 	go func() { wg.Wait(); close(waitCh) }()
-	select {
-	case <-waitCh:
-	case <-time.After(120 * time.Second):
+	// The watchdog is about progress, not duration: on an oversubscribed
+	// machine a run may legitimately take minutes.  It fires when no writer
+	// has completed a batch for 60 s (or after 15 minutes in any case).
+	stalled := false
+	{
+		hardStop := time.Now().Add(15 * time.Minute)
+		lastSum, lastChange := int64(-1), time.Now()
+	waiting:
+		for {
+			select {
+			case <-waitCh:
+				break waiting
+			case <-time.After(time.Second):
+			}
+			sum := int64(atomic.LoadInt32(&writersDone))
+			for w := range done {
+				sum += atomic.LoadInt64(&done[w])
+			}
+			if sum != lastSum {
+				lastSum, lastChange = sum, time.Now()
+			}
+			if time.Since(lastChange) > 60*time.Second || time.Now().After(hardStop) {
+				stalled = true
+				break waiting
+			}
+		}
+	}
+	if stalled {
 		close(stopExtras)
 		time.Sleep(50 * time.Millisecond)
 		atomic.StoreInt32(&eng.Tainted, 1)
-		res.Inconc = "watchdog: stress run did not finish in 120s"
+		res.Inconc = "watchdog: no writer completed a batch for 60 s (or the run exceeded 15 min)"
 		q, gs := eng.Quiescent(300 * time.Millisecond)
 		if q {
 			var txt []string
